@@ -63,7 +63,7 @@ class Sim:
                    "epsilon_max": emax, "is_closed_hysteresis": True, "is_zero_mean_stress_and_strain": False}
             row["S_m"] = 0.5 * (smin + smax)
             row["epsilon_m"] = 0.5 * (emin + emax)
-            row["R"] = smin / smax if smax != 0 else math.nan
+            row["R"] = smin / smax if smax != 0 else (math.copysign(math.inf, smin) if smin != 0 else math.nan)   # S_min / (+0.0) as IEEE division gives it
         else:   # Memory 3: mirrored half loop of reversal a
             row = {"loads_min": -abs(a.L), "loads_max": abs(a.L), "S_min": -abs(a.S), "S_max": abs(a.S),
                    "epsilon_min": -abs(a.e), "epsilon_max": abs(a.e), "is_closed_hysteresis": False,
